@@ -600,4 +600,13 @@ def payFee (s : St) (src : Nat) (c : Coins) : Option St :=
   | none => none
   | some b => some { s with bank := b }
 
+
+/-! ## x/tokens UpsertTokenInfo: the stake-cap rule the reward split relies on
+
+After the write the `StakeCap`s of ALL registered tokens - whether their staking is currently enabled or not: shares of
+a token whose staking was switched off stay in the pools and keep earning their cap - must not add up to more than 1. -/
+def upsertTok (s : St) (id : Nat) (ti : TokInfo) : Option St :=
+  let toks' := s.toks.filter (fun kv => kv.1 != id) ++ [(id, ti)]
+  if (toks'.map (fun t => t.2.stakeCap)).sum ≤ Dec.one then some { s with toks := toks' } else none
+
 end Sekai.MultiStake
